@@ -125,8 +125,9 @@ def check_C04(c):
 def check_C05(c):
     mc_inflate_core(c)
     c.scenario("total")
-    if thorough(c):
-        c.scenario("total", profile="dbg")
+    # the same histories in a build with overflow checks and debug assertions (the default `cargo test`
+    # profile): an arithmetic overflow that release builds wrap silently is a panic there
+    c.scenario("total", profile="dbg")
     return c.finish("model_checking", RULE_DEC, TRUST)
 
 
